@@ -1,6 +1,7 @@
 """C04 correspondence: real ribs.schedulers.Scheduler (spy emitters on the public EmitterBase, spy archives as public
 subclasses of GridArchive / ProximityArchive) vs the extracted Scheduler model, on random call programs."""
 import py2v_proto
+import py2v_sched
 import copy
 import json
 import os
@@ -13,8 +14,9 @@ import c04_util as U
 
 CONFIG = {
     "cone": ["Base/ListUtil.v", "Base/SliceUtil.v", "Model/Store.v", "Model/Scheduler.v", "Proofs/SchedulerProofs.v",
-             "Generated/ProtoGen.v", "Refine/ProtoRefine.v", "Properties/C04.v"],
-    "extra_property_files": ["Refine/ProtoRefine.v"],
+             "Generated/ProtoGen.v", "Refine/ProtoRefine.v", "Properties/C04.v",
+             "Model/SchedFacts.v", "Generated/SchedGen.v", "Refine/SchedRefine.v"],
+    "extra_property_files": ["Refine/ProtoRefine.v", "Refine/SchedRefine.v"],
     "trusted": ["harness/py2v_proto.py: fail-closed extractor of the ask/tell protocol table (guard on _last_called evaluated first, state assigned right "
                 "after it) of Scheduler and BanditScheduler into Generated/ProtoGen.v on every run; Refine/ProtoRefine.v proves the models follow it",
                 "Model/Scheduler.v abstracts emitters (scripted answers, recorded arguments) and archives (list of accepted "
@@ -504,6 +506,7 @@ def shrink(case, fails):
 
 def check(rep, tier, seed, driver):
     py2v_proto.report(rep)
+    py2v_sched.report(rep)
     from common import CORPUS
     rng = random.Random(seed)
     n = 260 if tier == "quick" else 4000
